@@ -1066,6 +1066,105 @@ def sumClos : Val := .clos sumFn [] []
 def sumFrame (n acc : Int) : Frame :=
   { env := [("acc", .int acc), ("n", .int n)], self := some ("f", sumClos), height := 1 }
 
+/-! ### the tail loop of the running example, for every iteration count -/
+
+/-- the frame the trampoline builds for `f(n, acc)` from height `h` -/
+def sumFrameAt (h : Nat) (n acc : Int) : Frame :=
+  { env := [("acc", .int acc), ("n", .int n)], self := some ("f", sumClos), height := h + 1 }
+
+theorem sumBody_step (k : Nat) (cfg : Cfg) (htco : cfg.tco = true) (h : Nat) (n acc : Int) (hn : n ≠ 0) (st : St) :
+    eval (k + 14) cfg (sumFrameAt h n acc) sumBody true st = (.tail [.int (n - 1), .int (acc + n)], st) := by
+  simp [eval, sumFrameAt, sumBody, callNamed, builtin, evalList, Frame.get, lookup, isStrictPrim, prim, hn, htco]
+
+theorem sumBody_base (k : Nat) (cfg : Cfg) (h : Nat) (acc : Int) (st : St) :
+    eval (k + 14) cfg (sumFrameAt h 0 acc) sumBody true st = (.val (.int acc), st) := by
+  simp [eval, sumFrameAt, sumBody, callNamed, builtin, evalList, Frame.get, lookup, isStrictPrim, prim]
+
+/-- 0 + 1 + … + n -/
+def tri : Nat → Int
+  | 0 => 0
+  | n + 1 => tri n + (n + 1 : Nat)
+
+theorem two_tri (n : Nat) : 2 * tri n = n * (n + 1) := by
+  induction n with
+  | zero => rfl
+  | succ n ih => simp only [tri]; push_cast; rw [Int.mul_add, ih]; simp only [Int.add_mul, Int.mul_add]; omega
+
+theorem sum_loop (cfg : Cfg) (htco : cfg.tco = true) (h : Nat) (hd : depthOk cfg h) (n : Nat) :
+    ∀ (acc : Int) (rec : Nat) (st : St) (k : Nat),
+      (recOk cfg (rec + n) →
+        tramp (k + 15 + n) cfg h sumClos [.int n, .int acc] rec st = (.val (.int (acc + tri n)), st)) ∧
+      (∀ l, cfg.recLimit = some l → rec ≤ l → rec + n > l →
+        tramp (k + 15 + n) cfg h sumClos [.int n, .int acc] rec st = (.viol .recursion, st)) := by
+  induction n with
+  | zero =>
+    intro acc rec st k
+    have hb := sumBody_base k cfg h acc st
+    simp only [sumFrameAt] at hb
+    have key : tramp (k + 15 + 0) cfg h sumClos [.int (0 : Nat), .int acc] rec st = (.val (.int (acc + tri 0)), st) := by
+      cases hdl : cfg.depthLimit with
+      | none =>
+        simp [tramp, sumClos, sumFn, bindParams, evalDecls, Func.params, Func.name, Func.decls, Func.body, Param.name,
+          hdl, tri]
+        simp [sumClos, sumFn] at hb
+        rw [hb]
+      | some l =>
+        have := hd l hdl
+        have h2 : ¬ (l ≤ h + 1) := by omega
+        simp [tramp, sumClos, sumFn, bindParams, evalDecls, Func.params, Func.name, Func.decls, Func.body, Param.name,
+          hdl, tri, h2]
+        simp [sumClos, sumFn] at hb
+        rw [hb]
+    exact ⟨fun _ => key, fun l hl hle hgt => by omega⟩
+  | succ n ih =>
+    intro acc rec st k
+    have hbody := sumBody_step (k + n + 1) cfg htco h ((n + 1 : Nat) : Int) acc (by omega) st
+    have hfuel' : k + n + 1 + 14 = k + 15 + n := by omega
+    have hargs : ((n + 1 : Nat) : Int) - 1 = (n : Int) := by omega
+    have step := tramp_body_tail (k + n + 1 + 14) cfg h sumFn [] [] [("n", .int ((n + 1 : Nat) : Int)), ("acc", .int acc)]
+      [.int ((n + 1 : Nat) : Int), .int acc] [.int (((n + 1 : Nat) : Int) - 1), .int (acc + ((n + 1 : Nat) : Int))] rec st st st
+      (sumFrameAt h ((n + 1 : Nat) : Int) acc) hd
+      (by simp [bindParams, sumFn, Func.params, Param.name])
+      (by simp [evalDecls, sumFn, Func.decls, callFrame, selfCell, sumFrameAt, sumClos, Func.name])
+      (by simpa [sumFn, Func.body] using hbody)
+    rw [hargs, hfuel'] at step
+    change (recOk cfg (rec + 1) → tramp _ cfg h sumClos _ rec st = tramp _ cfg h sumClos _ (rec + 1) st) ∧
+      (∀ l, cfg.recLimit = some l → rec + 1 > l → tramp _ cfg h sumClos _ rec st = _) at step
+    rw [show k + 15 + (n + 1) = k + 15 + n + 1 from rfl]
+    obtain ⟨ih1, ih2⟩ := ih (acc + ((n + 1 : Nat) : Int)) (rec + 1) st k
+    constructor
+    · intro hr
+      rw [step.1 (fun l hl => by have := hr l hl; omega), ih1 (fun l hl => by have := hr l hl; omega)]
+      simp only [tri]; congr 3; omega
+    · intro l hl hle hgt
+      by_cases h1 : rec + 1 > l
+      · exact step.2 l hl h1
+      · rw [step.1 (fun l' hl' => by rw [hl] at hl'; cases hl'; omega)]
+        exact ih2 l hl (by omega) (by omega)
+
+
+theorem sum_call (cfg : Cfg) (htco : cfg.tco = true) (h : Nat) (hd : depthOk cfg h) (n : Nat) (acc : Int) (st : St)
+    (k : Nat) (hc : ∀ l, cfg.callLimit = some l → st.calls + 1 < l) :
+    let st1 : St := if cfg.callLimit.isSome then { st with calls := st.calls + 1 } else st
+    (recOk cfg n →
+      callUser (k + 16 + n) cfg h sumClos [.int n, .int acc] st = (.val (.int (acc + tri n)), st1)) ∧
+    (∀ l, cfg.recLimit = some l → n > l →
+      callUser (k + 16 + n) cfg h sumClos [.int n, .int acc] st = (.viol .recursion, st1)) := by
+  intro st1
+  have hfuel : k + 16 + n = (k + 15 + n) + 1 := by omega
+  have key : callUser (k + 16 + n) cfg h sumClos [.int n, .int acc] st =
+      tramp (k + 15 + n) cfg h sumClos [.int n, .int acc] 0 st1 := by
+    rw [hfuel]
+    cases hl : cfg.callLimit with
+    | none => simp [callUser, firstErr, Val.isErr, hl, st1]
+    | some l =>
+      have := hc l hl
+      have h2 : ¬ (l ≤ st.calls + 1) := by omega
+      simp [callUser, firstErr, Val.isErr, hl, st1, h2]
+  obtain ⟨l1, l2⟩ := sum_loop cfg htco h hd n acc 0 st1 k
+  rw [key]
+  exact ⟨fun hr => l1 (by simpa using hr), fun l hl hgt => l2 l hl (by omega) (by omega)⟩
+
 /-- run the evaluator on a closed example by rewriting -/
 macro "core_run" : tactic => `(tactic|
   simp [eval, sumFrame, sumBody, sumClos, sumFn, callNamed, builtin, evalList, Frame.get, lookup,
